@@ -5,7 +5,25 @@ from .. import gen, oracles, world
 from ._tree import make
 
 
+def single_generation(rng):
+    """a history with exactly one generation over a tree with sub-folders: nothing to merge, still no directory records"""
+    distinct = set()
+    tree = gen.gen_tree(rng, max_entries=10, max_depth=3, simple=True, distinct=distinct, ds_store=False)
+    if not gen.all_dirs(tree):
+        tree["Sub"] = {"d": {"in.bin": {"f": gen.gen_content(rng, distinct) or "ab"}, "Deeper": {"d": {"x": {"f": gen.gen_content(rng, distinct) or "cd"}}}}}
+    if not gen.all_files(tree):
+        tree["top.txt"] = {"f": gen.gen_content(rng, distinct) or "ef"}
+    steps = [{"op": "create", "fmts": gen.gen_fmts(rng, kmax=3), **({"n": True} if rng.random() < 0.3 else {})},
+             {"op": "flatten", **({"rel_dest": True} if rng.random() < 0.3 else {})}, {"op": "verifypl", "expect": 0}]
+    victim = rng.choice(gen.all_files(tree))
+    old = gen._node(tree, victim)["f"]
+    steps += [{"op": "set", "path": victim, "data": (old + "00") if old else "01"}, {"op": "verifypl", "expect": 11}]
+    return {"tree": tree, "steps": steps}
+
+
 def scenario(rng, i):
+    if i % 6 == 5:
+        return single_generation(rng)
     distinct = set()
     tree = gen.gen_tree(rng, max_entries=10, max_depth=2, simple=(i % 2 == 0), distinct=distinct, ds_store=False)
     while len(gen.all_files(tree)) < 2:
@@ -52,10 +70,10 @@ def scenario(rng, i):
     return {"tree": tree, "steps": steps}
 
 
-RULE = ("flat histories of 2-7 generations with changing format sets (1-4 of six formats), generations containing failed entries (a file altered, sealed, restored), -sf "
+RULE = ("flat histories of 2-7 generations (one scenario in six: exactly ONE generation over a tree with sub-folders) with changing format sets (1-4 of six formats), generations containing failed entries (a file altered, sealed, restored), -sf "
         "generations covering part of the tree, -n generations, files added between generations; then flatten (absolute or relative destination), verify -pl on the "
         "unchanged tree, alter one file, verify -pl again; oracle: the packing list read with an independent XML reader holds one record per file path ever recorded and per "
         "format the earliest non-failed digest, no directory records, process type flatten; source folder byte-identical; verify -pl exits 0 / non-zero. "
-        "Non-trivial: >= 3 generations.")
+        "Non-trivial: >= 3 generations, or the single-generation case.")
 check, replay = make("C18", oracles.oracle_c18, scenario, 50, 1200, RULE, snap=True,
-                     nontrivial=lambda scn, obs: sum(1 for s in scn["steps"] if s["op"] == "create") >= 3)
+                     nontrivial=lambda scn, obs: sum(1 for s in scn["steps"] if s["op"] == "create") in (1, 3, 4, 5, 6, 7, 8))
